@@ -26,14 +26,14 @@ CLAIM = dict(
     text=('For the expression printer of typed_ast.rs (model Model/Printer.lean, bit-exact with the implementation on '
           'every printed expression of the generated sessions): Lean theorems that the echoed tokens re-read, by a parser '
           'for the documented grammar, to the same tree up to re-association of the + and × chains the printer flattens '
-          '(print_parse), that printing is then a fixed point (print_idempotent), and that strip_and_escape inverts '
+          '(print_parse, all 14 binary operators, unary operators, conditionals, fused products, superscripts), that printing the re-read tree gives the same text (print_idempotent, all constructors, under the predicate Stable), and that strip_and_escape inverts '
           'escape_numbat_string on every string (escape_unescape) and the tokenizer string scan ends exactly at the '
           'closing quote (escape_token_boundary); the exact side conditions are stated as a predicate and each excluded '
           'shape has a witness theorem replayed on the real interpreter. On the implementation: every accepted generated '
           'statement of every kind is echoed and re-read in a clone of the prior session state and must be accepted with '
           'the same type, value bits, print output and echo.'),
     design_ref='DESIGN.md section 5 C15',
-    note=('Trusted: Lean kernel, the hand-written printer model and reference parser, the harness. 19 deviations found on '
+    note=('Trusted: Lean kernel, the hand-written printer model and reference parser, the harness. 22 deviations found on '
           'the unchanged tree are listed as known findings (known_findings.json ids C15-*); statements outside the '
           'expression fragment are covered by the implementation-side oracle only.'),
     technique='Lean 4 proof about an executable printer/parser model + differential correspondence + round-trip oracle on the real interpreter',
